@@ -331,7 +331,9 @@ struct Exec {
             crypto_core_ristretto255_random(out.data());
             break;
         case K_SCALAR_ED: case K_SCALAR_RIS:
-            out.assign(32, prefill);
+            // the replay execution hands in a buffer that already holds a valid (canonical, non-zero) scalar, as an
+            // application reusing its buffer would; the other executions a pattern that is not a scalar
+            out.assign(32, prefill == 0x55 ? 0x05 : prefill);
             if (op.kind == K_SCALAR_ED) crypto_core_ed25519_scalar_random(out.data()); else crypto_core_ristretto255_scalar_random(out.data());
             if (!scalar_lt_L(out.data())) o.invalid = "noncanonical-scalar|" + std::string(kind_name[op.kind]) + "|random scalar is not below the group order";
             else if (all_zero(out.data(), 32)) o.invalid = "zero-scalar|" + std::string(kind_name[op.kind]) + "|random scalar is zero";
